@@ -28,13 +28,22 @@
                                sub 1 dims reorder | 2 dims transpose | 8 a b map | 9 map_with_index
                                | 12 rhs elementwise | 13 rhs elementwise_with_index | 14 first
                                | 20 rhs (l == r, l.similar(r), r == l, r.similar(l), l == l)
+                               | 10 a b map_mut | 11 map_mut_with_index THROUGH the view (entered through
+                               `&mut` and owned; terms with a shared-reference entry are bad cases):
+                               result (0 (leaf dumps)) - every element of every leaf, in term order,
+                               after the in-place map (Model/TransformMutG.v over leaf storage)
                                a failing constructor of a term is reported as in C02: (1 e) | (2)
+     (13 22 src dims)          the four forms of reorder and of transpose on one tensor: result
+                               ((reorder reorder_mut index_by-dump view.reorder)
+                                (transpose transpose_mut transpose_view-dump view.transpose)),
+                               each an outcome of a tensor dump, each from its OWN transcription
+                               (Tensor::reorder, Tensor::reorder_mut, TensorAccess, TensorView::reorder, ...)
    with code(i) = fold (acc -> acc*7 + i_d + 1) 0 i, and the with-index maps x -> 1000x + code(i).
    A tensor result is (shape ((v)…)) : its shape and the element found by get_reference at every
    index in row-major order.  Results are outcomes: (0 r) | (1 shape) | (2). *)
 From Coq Require Import List ZArith NArith Bool Arith.
 From EasyML Require Import Base.Sx Model.Shape Model.Tensor Model.TSource Model.ShapeIter
-  Model.Transform Model.TransformG.
+  Model.Transform Model.TransformG Model.IterG Model.TransformMutG.
 From EasyML Require Model.Views Run.RunC02.
 Import ListNotations.
 Open Scope N_scope.
@@ -99,8 +108,44 @@ Definition with_view (t : sx) (k : gsrc Z -> sx) : sx :=
   | Some o => match o with Ok c => k (c02_source c) | Err e => SL [SZ 1%Z; e] | Panic => SL [SZ 2%Z] end
   | None => bad_case
   end.
+(* a term whose view is entered through a shared reference somewhere ((11 t 4), or a convenience
+   constructor taking `&self`: via 3 / 4) has no mutable face (same test as Run/RunC09.v) *)
+Fixpoint term_read_only (fuel : nat) (t : sx) : bool :=
+  match fuel with
+  | O => false
+  | S f =>
+    match t with
+    | SL [SZ 11%Z; t'; SZ kind] => (kind =? 4)%Z || term_read_only f t'
+    | SL [SZ 9%Z; SL ts; _; _; _] => existsb (term_read_only f) ts
+    | SL [SZ 10%Z; SL ts; _; _] => existsb (term_read_only f) ts
+    | SL [SZ _; t'; _; SZ via] => (via =? 3)%Z || (via =? 4)%Z || term_read_only f t'
+    | SL (SZ _ :: t' :: _) => term_read_only f t'
+    | _ => false
+    end
+  end.
+Definition initial_store : N * N -> option Z := fun e => Some (Views.leaf_value e).
+Definition dump_store (c : Views.cview) (st : N * N -> option Z) : sx :=
+  slist (fun e => slist (fun j => match st (fst e, N.of_nat j) with Some x => SZ x | None => SL [] end)
+                        (seq 0 (N.to_nat (snd e))))
+        (Views.c_leaves c).
+Definition with_mut_view (t : sx) (k : Views.cview -> (N * N -> option Z)) : sx :=
+  if term_read_only 40 t then bad_case else
+  match dcview t with
+  | Some o => match o with
+              | Ok c => SL [SZ 0%Z; dump_store c (k c)]
+              | Err e => SL [SZ 1%Z; e]
+              | Panic => SL [SZ 2%Z]
+              end
+  | None => bad_case
+  end.
+
 Definition c13_over_views (sub : Z) (t : sx) (rest : list sx) : sx :=
   match sub, rest with
+  | 10%Z, [a; b] =>
+      match dZ a, dZ b with
+      | Some a, Some b => with_mut_view t (fun c => gm_map_mut (cview_source c) (f_map a b) initial_store)
+      | _, _ => bad_case end
+  | 11%Z, [] => with_mut_view t (fun c => gm_map_mut_with_index (cview_source c) f_map_wi initial_store)
   | 1%Z, [dims] =>
       match dnames dims with
       | Some dims => with_view t (fun g => if Nat.eqb (length dims) (length (gs_shape g))
@@ -142,6 +187,24 @@ Definition run_c13 (args : list sx) : sx :=
       match dshape sh, dlist dZ data, dlist dnat nans with
       | Some sh, Some data, Some nans => c13_nan sh data nans
       | _, _, _ => bad_case
+      end
+  | [SZ 22%Z; src; dims] =>
+      match dsrc 8 src, dnames dims with
+      | Some src, Some dims =>
+          on_tensor src (fun t =>
+            if negb (Nat.eqb (length dims) (length (t_shape t))) then bad_case else
+            let lazy (mk : tsrc Z -> list (nat * nat) -> tsrc Z) : sx :=
+              match dm_new (names_of (t_shape t)) dims with
+              | None => SL [SZ 2%Z]
+              | Some tbl => let s := mk (TBase t) tbl in
+                  SL [SZ 0%Z; SL [sshape (src_shape s);
+                                  slist (fun i => sopt SZ (src_get s i)) (all_indexes (lens_of (src_shape s)))]]
+              end in
+            SL [SL [sot (reorder (TBase t) dims); sot (reorder_mut t dims); lazy TAccess;
+                    sot (g_reorder (of_tsrc (TBase t)) dims)];
+                SL [sot (transpose (TBase t) dims); sot (transpose_mut t dims); lazy TTranspose;
+                    sot (g_transpose (of_tsrc (TBase t)) dims)]])
+      | _, _ => bad_case
       end
   | [SZ 1%Z; form; src; dims] =>
       match dnat form, dsrc 8 src, dnames dims with
